@@ -250,40 +250,41 @@ pub struct Info {
     pub state_wrap: bool,
 }
 
-pub fn run_case(case: &Case) -> (Vec<(String, String)>, Info) {
-    let mut info = Info::default();
-    let mut v = vec![];
-    let built = block_on(build_history(&case.hist));
-    if built.blocks.len() < 2 {
-        return (v, info);
-    }
-    // B = last block of the main chain; the replica holds the chain up to B's parent
-    let main = built.main_chain_blocks();
-    let b = main.last().unwrap().clone();
-    info.txs_in_block = b.transactions.len();
-    info.state_wrap = b.id > case.hist.ncfg.gp + 1;
-    let make_replica = || {
-        let mut d = Deliverer::new(Node::new(case.hist.ncfg, 6), 10_000);
-        for blk in &main[..main.len() - 1] {
-            d.deliver(blk);
-        }
-        d
+/// Offers every edit of `b` to a replica produced by `make_replica` (a node for which the unedited
+/// `b` is the next acceptable block). `state` names the replica's state in keys and messages.
+fn judge_edits(b: &Block, edits: &[IdEdit], state: &str, make_replica: &dyn Fn() -> Option<Deliverer>, info: &mut Info, v: &mut Vec<(String, String)>) {
+    let mut d = match make_replica() {
+        Some(d) => d,
+        None => return,
     };
-    let mut d = make_replica();
-    if d.dead || d.node.tip().1 != b.previous_block_hash {
-        return (v, info);
+    // non-vacuity first: the unedited, round-tripped block must be acceptable in this state; for the
+    // full replica a refusal is a violation, for the other states the state is simply not usable
+    match apply(b, &IdEdit::Identity) {
+        Some((ib, _, _)) => {
+            let (out, _) = guarded_add(&mut d.node, ib, 64);
+            if !matches!(out, StepOutcome::Result("added_lc")) {
+                if state == "full" {
+                    v.push(("C06|unedited_block_refused".into(), format!("the unedited, round-tripped block was not accepted ({})", out.name())));
+                }
+                return;
+            }
+        }
+        None => return,
     }
-    let mut edits = case.edits.clone();
-    edits.push(IdEdit::Identity);
-    for e in &edits {
-        let (eb, resigned, asserted) = match apply(&b, e) {
+    d = match make_replica() {
+        Some(d) => d,
+        None => return,
+    };
+    let sfx = if state == "full" { String::new() } else { format!("|state={state}") };
+    for e in edits {
+        let (eb, resigned, asserted) = match apply(b, e) {
             Some(x) => x,
             None => {
                 info.discarded += 1;
                 continue;
             }
         };
-        if !matches!(e, IdEdit::Identity) && crate::props::c09::block_eq(&eb, &b) {
+        if crate::props::c09::block_eq(&eb, b) {
             // after decoding and generate() the edited block is field-for-field the original
             // (e.g. a zeroed merkle root is recomputed from the unchanged transactions): no-op
             info.discarded += 1;
@@ -294,45 +295,91 @@ pub fn run_case(case: &Case) -> (Vec<(String, String)>, Info) {
         let same_txs = eb.transactions.len() == b.transactions.len() && eb.transactions.iter().zip(&b.transactions).all(|(x, y)| tx_eq(x, y));
         let sig_by_stated_creator = verify_signature(&eb.pre_hash, &eb.signature, &eb.creator);
         let name = edit_name(e);
-        if !matches!(e, IdEdit::Identity | IdEdit::HeaderUnsigned(_)) {
-            info.nontrivial.push(name.clone());
+        if !matches!(e, IdEdit::HeaderUnsigned(_)) {
+            info.nontrivial.push(format!("{name}{sfx}"));
         }
         let (out, _) = guarded_add(&mut d.node, eb.clone(), 64);
         let accepted = out.accepted();
-        match e {
-            IdEdit::Identity => {
-                if !matches!(out, StepOutcome::Result("added_lc")) {
-                    v.push(("C06|unedited_block_refused".into(), format!("the unedited, round-tripped block was not accepted ({})", out.name())));
-                }
-            }
-            _ => {
-                if let StepOutcome::Panicked(site, msg) = &out {
-                    v.push((format!("C06|edit={}|panic={}", name, site), format!("add_block panicked at {} on edit {:?}: {}", site, e, msg)));
-                }
-                if accepted && same_hash && !same_txs {
-                    v.push((
-                        format!("C06|same_hash_different_txs|edit={}", name),
-                        format!("a block with hash {} but a different transaction list ({} vs {} txs) was accepted (edit {:?})", hx(&b.hash), eb.transactions.len(), b.transactions.len(), e),
-                    ));
-                } else if accepted && !resigned && asserted {
-                    v.push((
-                        format!("C06|edited_block_accepted|edit={}", name),
-                        format!("a block edited after signing was accepted (edit {:?}; same hash: {}, signature valid for stated creator: {})", e, same_hash, sig_by_stated_creator),
-                    ));
-                } else if accepted && !asserted {
-                    info.unasserted_accepted += 1;
-                }
-                if resigned && same_hash {
-                    v.push(("C06|resigned_block_same_hash".into(), "a block re-signed by a different creator kept its hash".into()));
-                }
-            }
+        if let StepOutcome::Panicked(site, msg) = &out {
+            v.push((format!("C06|edit={}|panic={}{}", name, site, sfx), format!("add_block panicked at {} on edit {:?} ({} replica): {}", site, e, state, msg)));
+        }
+        if accepted && same_hash && !same_txs {
+            v.push((
+                format!("C06|same_hash_different_txs|edit={}{}", name, sfx),
+                format!("a block with hash {} but a different transaction list ({} vs {} txs) was accepted by the {} replica (edit {:?})", hx(&b.hash), eb.transactions.len(), b.transactions.len(), state, e),
+            ));
+        } else if accepted && !resigned && asserted {
+            v.push((
+                format!("C06|edited_block_accepted|edit={}{}", name, sfx),
+                format!("a block edited after signing was accepted by the {} replica (edit {:?}; same hash: {}, signature valid for stated creator: {})", state, e, same_hash, sig_by_stated_creator),
+            ));
+        } else if accepted && !asserted {
+            info.unasserted_accepted += 1;
+        }
+        if resigned && same_hash {
+            v.push(("C06|resigned_block_same_hash".into(), "a block re-signed by a different creator kept its hash".into()));
         }
         if accepted || d.dead || matches!(out, StepOutcome::Panicked(..)) {
-            d = make_replica();
-            if d.dead {
-                break;
-            }
+            d = match make_replica() {
+                Some(d) => d,
+                None => break,
+            };
         }
+    }
+}
+
+pub fn run_case(case: &Case) -> (Vec<(String, String)>, Info) {
+    let mut info = Info::default();
+    let mut v = vec![];
+    let built = block_on(build_history(&case.hist));
+    if built.blocks.len() < 2 {
+        return (v, info);
+    }
+    // B = last block of the main chain
+    let main = built.main_chain_blocks();
+    let b = main.last().unwrap().clone();
+    info.txs_in_block = b.transactions.len();
+    info.state_wrap = b.id > case.hist.ncfg.gp + 1;
+    let ncfg = case.hist.ncfg;
+    // (1) a replica holding the whole chain up to B's parent
+    let full = || {
+        let mut d = Deliverer::new(Node::new(ncfg, 6), 10_000);
+        for blk in &main[..main.len() - 1] {
+            d.deliver(blk);
+        }
+        if d.dead || d.node.tip().1 != b.previous_block_hash {
+            None
+        } else {
+            Some(d)
+        }
+    };
+    judge_edits(&b, &case.edits, "full", &full, &mut info, &mut v);
+    if !v.is_empty() {
+        return (v, info);
+    }
+    // (2) a node that joined mid-chain: it holds nothing but B's parent (no genesis block, less than
+    // a genesis period of blocks), so everything that depends on the spendable set is not checked
+    // for B - its identity still is
+    if main.len() >= 3 {
+        let joiner = || {
+            let mut d = Deliverer::new(Node::new(ncfg, 6), 10_000);
+            d.deliver(&main[main.len() - 2]);
+            if d.dead || d.node.tip().1 != b.previous_block_hash {
+                None
+            } else {
+                Some(d)
+            }
+        };
+        judge_edits(&b, &case.edits, "joined_mid_chain", &joiner, &mut info, &mut v);
+        if !v.is_empty() {
+            return (v, info);
+        }
+    }
+    // (3) the genesis block offered to an empty node
+    {
+        let g = main[0].clone();
+        let empty = || Some(Deliverer::new(Node::new(ncfg, 6), 10_000));
+        judge_edits(&g, &case.edits, "empty_node_genesis", &empty, &mut info, &mut v);
     }
     (v, info)
 }
